@@ -96,9 +96,12 @@ var familyContents = [][]int{
 
 // methods whose result is about order, magnitude or equality of the elements
 var orderMethods = map[string]bool{"Max": true, "Min": true, "Sum": true, "Avg": true, "Sort": true, "IsSorted": true, "BinarySearch": true,
-	"Contains": true, "Equal": true, "Compare": true, "Compact": true, "CompactFunc": true, "IndexFunc": true, "SortFunc": true, "SortFuncToSlice": true,
-	"SortComparator": true, "SortComparatorToSlice": true, "SortStableFunc": true, "SortStableFuncToSlice": true, "IsSortedFunc": true,
-	"BinarySearchFunc": true, "Filter": true, "FilterToSlice": true, "CompareFunc": true, "EqualFunc": true, "Reverse": true, "Marshal": true, "Unmarshal": true}
+	"Contains": true, "Equal": true, "Compare": true, "Compact": true, "SortFunc": true, "SortComparator": true, "SortStableFunc": true,
+	"IsSortedFunc": true, "BinarySearchFunc": true, "CompareFunc": true}
+
+// further value-driven methods added in the thorough tier
+var orderMethodsThorough = map[string]bool{"CompactFunc": true, "IndexFunc": true, "SortFuncToSlice": true, "SortComparatorToSlice": true,
+	"SortStableFuncToSlice": true, "Filter": true, "FilterToSlice": true, "EqualFunc": true, "Reverse": true, "Marshal": true, "Unmarshal": true}
 
 // one variant per method name (the k-th of those valueOps offers), so that a whole family can go through every wrapper
 func oneVariantPerMethod(ops []op, k int) []op {
@@ -369,7 +372,7 @@ func main() {
 	// argument variant, on the unsafe AND the safe wrapper of the flavour that defines the method ----
 	for _, c := range allContents(3, []int{-3, -1, 7}) {
 		for _, op1 := range valueOps(c, o.Thorough()) {
-			if !orderMethods[op1.Name] {
+			if !orderMethods[op1.Name] && !(o.Thorough() && orderMethodsThorough[op1.Name]) {
 				continue
 			}
 			runCase(w, "exh-neg", 2*op1.level(), c, []op{op1})
@@ -397,7 +400,7 @@ func main() {
 	}
 
 	// ---- rand: profiled contents, malformed indexes ----
-	nr := 2500
+	nr := 2000
 	if o.Thorough() {
 		nr = 60000
 	}
